@@ -429,6 +429,76 @@ pub fn write_substore_docs(sub: &std::path::Path, i: usize) -> std::path::PathBu
     rootpath
 }
 
+/// two STAM JSON documents over the same resource and the same dataset identifier, the second merged into the store
+/// loaded from the first (`from_file(a)?.with_file(b)`): the store must hold what both files say — every key, every
+/// data item with its value, every annotation with its data (referred to by id across the files) and its text
+fn check_merge(rep: &mut Report, dir: &std::path::Path, i: usize) {
+    let sub = dir.join(format!("mg{}", i));
+    std::fs::create_dir_all(&sub).ok();
+    let na = 1 + i % 3;                       // data items in the first file
+    let nb = 1 + (i / 3) % 3;                 // data items in the second file
+    let extra_key = (i / 9) % 2 == 1;         // the second file declares one more key
+    let shared = (i / 18) % 2 == 1;           // the second file repeats the first data item of the first file
+    let keys_a = vec!["k1", "k2"];
+    let mut keys_b = keys_a.clone();
+    if extra_key { keys_b.push("k3"); }
+    let datum = |id: &str, key: &str, val: &str| format!("{{\"@type\": \"AnnotationData\", \"@id\": \"{}\", \"key\": \"{}\", \"value\": {{\"@type\": \"String\", \"value\": \"{}\"}}}}", id, key, val);
+    let mut expect_data: Vec<(String, String, String)> = vec![];
+    let mut data_a = vec![];
+    for k in 0..na { let (id, key, val) = (format!("DA{}", k), keys_a[k % 2].to_string(), format!("va{}", k)); data_a.push(datum(&id, &key, &val)); expect_data.push((id, key, val)); }
+    let mut data_b = vec![];
+    if shared { data_b.push(datum("DA0", keys_a[0], "va0")); }
+    for k in 0..nb { let (id, key, val) = (format!("DB{}", k), keys_b[(k + 1) % keys_b.len()].to_string(), format!("vb{}", k)); data_b.push(datum(&id, &key, &val)); expect_data.push((id, key, val)); }
+    let set = |keys: &[&str], data: &[String]| format!("{{\"@type\": \"AnnotationDataSet\", \"@id\": \"s\", \"keys\": [{}], \"data\": [{}]}}", keys.iter().map(|k| format!("{{\"@type\": \"DataKey\", \"@id\": \"{}\"}}", k)).collect::<Vec<_>>().join(", "), data.join(", "));
+    let ann_text = |id: &str, b: usize, e: usize, refs: &[&str]| format!("{{\"@type\": \"Annotation\", \"@id\": \"{}\", \"target\": {{\"@type\": \"TextSelector\", \"resource\": \"r\", \"offset\": {{\"@type\": \"Offset\", \"begin\": {{\"@type\": \"BeginAlignedCursor\", \"value\": {}}}, \"end\": {{\"@type\": \"BeginAlignedCursor\", \"value\": {}}}}}}}, \"data\": [{}]}}", id, b, e, refs.iter().map(|r| format!("{{\"@type\": \"AnnotationData\", \"@id\": \"{}\", \"set\": \"s\"}}", r)).collect::<Vec<_>>().join(", "));
+    let ann_ann = |id: &str, on: &str, refs: &[&str]| format!("{{\"@type\": \"Annotation\", \"@id\": \"{}\", \"target\": {{\"@type\": \"AnnotationSelector\", \"annotation\": \"{}\"}}, \"data\": [{}]}}", id, on, refs.iter().map(|r| format!("{{\"@type\": \"AnnotationData\", \"@id\": \"{}\", \"set\": \"s\"}}", r)).collect::<Vec<_>>().join(", "));
+    let res = "{\"@type\": \"TextResource\", \"@id\": \"r\", \"text\": \"hello w\u{f6}rld again\"}";
+    let doc_a = format!("{{\"@type\": \"AnnotationStore\", \"@id\": \"first\", \"resources\": [{}], \"annotationsets\": [{}], \"annotations\": [{}]}}", res, set(&keys_a, &data_a), ann_text("A1", 0, 5, &["DA0"]));
+    let last_b = format!("DB{}", nb - 1);
+    let doc_b = format!("{{\"@type\": \"AnnotationStore\", \"@id\": \"second\", \"resources\": [{}], \"annotationsets\": [{}], \"annotations\": [{}, {}]}}", res, set(&keys_b, &data_b), ann_text("A2", 6, 11, &["DB0"]), ann_ann("A3", "A1", &["DA0", last_b.as_str()]));
+    let (pa, pb) = (sub.join("a.store.stam.json"), sub.join("b.store.stam.json"));
+    std::fs::write(&pa, &doc_a).ok();
+    std::fs::write(&pb, &doc_b).ok();
+    let ctx = vec![format!("merge: first file {} data item(s), second file {} data item(s){}{} in the dataset \"s\" both declare; annotation A3 (second file) targets A1 (first file) and uses data of both", na, nb, if extra_key { ", one more key" } else { "" }, if shared { ", repeating DA0" } else { "" })];
+    rep.count("json:merge");
+    rep.case(Some(&format!("merge {} {} {} {}", na, nb, extra_key, shared)));
+    let (pas, pbs) = (pa.to_str().unwrap().to_string(), pb.to_str().unwrap().to_string());
+    let loaded = guarded(std::panic::AssertUnwindSafe(|| AnnotationStore::from_file(&pas, Config::default()).and_then(|s| s.with_file(&pbs))));
+    let store = match loaded { Ok(Ok(s)) => s, Ok(Err(e)) => { rep.fail("oracle", "C05/merge/second-file-refused", ctx, "both files loaded", &format!("{}", e)); std::fs::remove_dir_all(&sub).ok(); return; } Err(m) => { rep.fail("panic", "C05/merge/panics", ctx, "both files loaded", &m); std::fs::remove_dir_all(&sub).ok(); return; } };
+    let describe = |st: &AnnotationStore| -> Vec<String> {
+        let mut v = vec![];
+        if let Some(ds) = st.dataset("s") {
+            let mut keys: Vec<String> = ds.keys().map(|k| k.id().unwrap_or("~").to_string()).collect(); keys.sort();
+            v.push(format!("keys {:?}", keys));
+            let mut data: Vec<String> = ds.data().map(|d| format!("{}:{}={}", d.id().unwrap_or("~"), d.key().id().unwrap_or("~"), show_value(d.value()))).collect(); data.sort();
+            for d in data { v.push(format!("data {}", d)); }
+        } else { v.push("no dataset s".into()); }
+        v.push(format!("datasets {}", st.datasets().count()));
+        v.push(format!("resources {}", st.resources().count()));
+        let mut anns: Vec<String> = st.annotations().map(|a| { let mut d: Vec<String> = a.data().map(|x| x.id().unwrap_or("~").to_string()).collect(); d.sort(); format!("annotation {} data {:?} text {:?} on {:?}", a.id().unwrap_or("~"), d, a.text_join("|"), a.annotations_in_targets(AnnotationDepth::One).map(|x| x.id().unwrap_or("~").to_string()).collect::<Vec<_>>()) }).collect();
+        anns.sort();
+        v.extend(anns);
+        v
+    };
+    let mut want = vec![format!("keys {:?}", { let mut k: Vec<String> = keys_b.iter().map(|x| x.to_string()).collect(); k.sort(); k })];
+    let mut wd: Vec<String> = expect_data.iter().map(|(id, k, v)| format!("data {}:{}=s:{}", id, k, v)).collect(); wd.sort();
+    want.extend(wd);
+    want.push("datasets 1".into());
+    want.push("resources 1".into());
+    want.push(format!("annotation A1 data {:?} text {:?} on {:?}", vec!["DA0"], "hello", Vec::<String>::new()));
+    want.push(format!("annotation A2 data {:?} text {:?} on {:?}", vec!["DB0"], "w\u{f6}rld", Vec::<String>::new()));
+    want.push(format!("annotation A3 data {:?} text {:?} on {:?}", { let mut d = vec!["DA0".to_string(), last_b.clone()]; d.sort(); d }, "", vec!["A1"]));  // an annotation selector without offset selects no text
+    let got = match guarded(std::panic::AssertUnwindSafe(|| describe(&store))) { Ok(g) => g, Err(m) => { rep.fail("panic", "C05/merge/merged-store-panics", ctx, "a store", &m); std::fs::remove_dir_all(&sub).ok(); return; } };
+    if got != want { let (x, y) = first_diff(&want, &got); rep.fail("oracle", &format!("C05/merge/{}", if x.starts_with("data") || y.starts_with("data") { "data-differ" } else if x.starts_with("keys") { "keys-differ" } else if x.starts_with("annotation") || y.starts_with("annotation") { "annotations-differ" } else { "items-differ" }), ctx.clone(), &x, &y); }
+    // and the merged store survives a round trip
+    match guarded(std::panic::AssertUnwindSafe(|| store.to_json_string(&Config::default()).and_then(|js| AnnotationStore::from_str(&js, Config::default())))) {
+        Ok(Ok(st2)) => { let d2 = describe(&st2); if d2 != got { let (x, y) = first_diff(&got, &d2); rep.fail("oracle", "C05/merge/roundtrip-differs", ctx.clone(), &x, &y); } }
+        Ok(Err(e)) => rep.fail("oracle", "C05/merge/roundtrip-fails", ctx.clone(), "the merged store is written and read back", &format!("{}", e)),
+        Err(m) => rep.fail("panic", "C05/merge/roundtrip-panics", ctx.clone(), "the merged store is written and read back", &m),
+    }
+    std::fs::remove_dir_all(&sub).ok();
+}
+
 fn check_substores(rep: &mut Report, dir: &std::path::Path, i: usize) {
     let sub = dir.join(format!("ss{}", i));
     let root_has_id = i % 2 == 0;
@@ -493,7 +563,7 @@ pub fn run(opts: &Opts) -> Report {
             rep.sample(json!({"script": script, "canonical_form": before}));
         }
     }
-    if property.map(|p| p == "C05").unwrap_or(true) { for i in 0..12 { check_substores(&mut rep, &dir, i); } }
+    if property.map(|p| p == "C05").unwrap_or(true) { for i in 0..12 { check_substores(&mut rep, &dir, i); } for i in 0..36 { check_merge(&mut rep, &dir, i); } }
     // minimise
     let mut done: std::collections::BTreeSet<(String, String)> = Default::default();
     for idx in 0..rep.failures.len() {
